@@ -37,21 +37,6 @@ Definition L2 (s : state) : Prop :=
 Lemma L2_init : L2 init.
 Proof. unfold L2, init; cbn; repeat split; intros; try discriminate; lia. Qed.
 
-Ltac b2p := repeat match goal with
-  | H : (_ <? _) = true |- _ => apply Z.ltb_lt in H
-  | H : (_ <? _) = false |- _ => apply Z.ltb_ge in H
-  | H : (_ <=? _) = true |- _ => apply Z.leb_le in H
-  | H : (_ <=? _) = false |- _ => apply Z.leb_gt in H
-  | H : (_ =? _) = true |- _ => apply Z.eqb_eq in H
-  | H : (_ =? _) = false |- _ => apply Z.eqb_neq in H
-  | H : (_ <? _)%nat = true |- _ => apply Nat.ltb_lt in H
-  | H : (_ <? _)%nat = false |- _ => apply Nat.ltb_ge in H
-  | H : (_ =? _)%nat = true |- _ => apply Nat.eqb_eq in H
-  | H : (_ =? _)%nat = false |- _ => apply Nat.eqb_neq in H
-  | H : _ && _ = true |- _ => apply andb_true_iff in H; destruct H
-  | H : negb _ = true |- _ => apply negb_true_iff in H
-  end.
-
 Lemma not_holds_not_wadd pc : w_holds pc = false -> is_wadd pc = false.
 Proof. destruct pc; cbn; congruence. Qed.
 
@@ -60,11 +45,12 @@ Proof. destruct pc; cbn; congruence. Qed.
 Ltac hcc := match goal with H : is_hcconn ?x = true |- _ =>
   let HH := fresh in pose proof (hcconn_holds _ H) as HH; rewrite HH in *; cbn in *; try discriminate; try congruence end.
 
+Ltac absurd_hyp := match goal with H : true = false |- _ => discriminate H | H : false = true |- _ => discriminate H end.
 Ltac fin2 := dk; unfold L2; unf; cbn; gifs; cbn; repeat split; try assumption; intros;
-  try discriminate; try assumption; try congruence;
-  spec; conj; try discriminate; try assumption; try congruence; try exact I;
-  b2p; spec; conj; try exact I; try assumption; try lia;
-  try (apply not_holds_not_wadd; assumption); try hcc.
+  spec; conj; try assumption; try absurd_hyp; try exact I;
+  b2p; subst; cbn in *; rewrite ?orb_true_r in *; spec; conj; try exact I; try assumption; try absurd_hyp; try zl;
+  try (apply not_holds_not_wadd; assumption); try hcc;
+  try (match goal with |- ?b = _ => is_var b; destruct b; try reflexivity; exfalso; spec; conj; try absurd_hyp; try zl end).
 
 Lemma L2_step_io p s r res s' l : L0 s -> L2 s -> step_io p s r res = Some (s', l) -> L2 s'.
 Proof.
@@ -88,4 +74,24 @@ Proof.
   all: cbn in E; unf; cbn in E.
   all: split_ifs E; try discriminate; try inv_some.
   all: fin2.
+Qed.
+
+Lemma L2_step p s c s' l : L0 s -> L2 s -> step p s c = Some (s', l) -> L2 s'.
+Proof.
+  destruct c as [r res|r|b|a]; cbn [step].
+  - apply L2_step_io.
+  - apply L2_step_w.
+  - intros _ H E. ds s. unfold step_tail in E. cbn in E.
+    split_ifs E; try discriminate; inv_some; exact H.
+  - intros _ H E. ds s. destruct a; cbn in E; split_ifs E; try discriminate; inv_some; exact H.
+Qed.
+
+Definition L02 (s : state) : Prop := L0 s /\ L2 s.
+
+Theorem L2_all p sched : L2 (run p sched).
+Proof.
+  assert (H : L02 (run p sched)).
+  { unfold run. apply invariant_rule. split. apply L0_init. apply L2_init.
+    intros s c s' l [A B] E. split. eapply L0_step; eauto. eapply L2_step; eauto. }
+  apply H.
 Qed.
